@@ -970,65 +970,127 @@ def _plain_measure(ser_id):
     return lambda spec: len(E.batch(ser_id, [dumps(E.plain_message(spec))]))
 
 
+SEND_SITES = {"after": "limit-send", "open": "limit-send-in-onOpen", "message": "limit-send-in-onMessage"}
+
+
 def run_rs_limit_send(run, case):
-    """The library sends; the raw peer announced 2**exp.  Lengths exp-limit + delta."""
+    """The library sends; the raw peer announced 2**exp.  Lengths exp-limit + delta.
+
+    ``site`` = WHEN the session issues the send: 'after' (from outside, once the handshake has been processed), 'open' (from
+    inside ISession.onOpen(transport), like ApplicationSession's HELLO) or 'message' (from inside the first onMessage(), the
+    triggering frame glued to the peer's handshake octets or in a read of its own).  Inside a callback the session sends a small
+    message, the sized one and a small one again, each guarded by try/except."""
     R = run.R
     R.count("evaluations")
     env = run.fresh()
     fw, role, ser, exp, delta = run.fw, case["role"], case["ser"], case["exp"], case["delta"]
-    key = "C13/rs/%s/%s/limit-send" % (fw, role)
-    rp = RawPeer(run, env, "rs", role, ser, peer_exp=exp, max_size=case.get("max_size"))
-    if not rp.handshake():
-        run.violation(key + "/not-attached", "valid handshake announcing 2**%d did not attach" % exp, {"escaped": _escapes(env, [rp.ep])}, case)
-        return
+    site = case.get("site", "after")
+    key = "C13/rs/%s/%s/%s" % (fw, role, SEND_SITES[site])
+    sfx = {"after": "", "open": "_onopen", "message": "_onmessage"}[site]
     L = 2 ** exp
     target = L + delta
     spec = E.sized_spec(_lib_measure(ser), case.get("mkind", "publish"), 4242, "lim%+d" % delta, target)
     if spec is None:
         R.count("limit_size_unreachable")
         return
+    spec0 = {"k": "call", "id": 8, "tag": "before", "fill": ""}
+    spec2 = {"k": "event", "id": 9, "tag": "after", "fill": ""}
+    grey = target == L and exp == MAXEXP       # 2**24 cannot be expressed in the 24-bit length field: not asserted
+    script = None
+    if site == "open":
+        script = E.SessionScript(try_on_open=[E.build_message(x) for x in (spec0, spec, spec2)])
+    elif site == "message":
+        script = E.SessionScript(try_on_message=(0, [E.build_message(x) for x in (spec0, spec, spec2)]))
+    rp = RawPeer(run, env, "rs", role, ser, script=script, peer_exp=exp, max_size=case.get("max_size"))
+    if site == "after":
+        attached = rp.handshake()
+    else:
+        rng = random.Random(case.get("seed", 0))
+        hs = rp.handshake_octets()
+        trigger = {"k": "subscribed", "id": 31, "tag": "trigger"}
+        body = rp.frame(rp.encode(trigger)) if site == "message" else b""
+        env.world.settle()
+        if case.get("glue", True):
+            rp.feed_chunks(E.cut(rng, hs + body, case.get("policy", "whole")))
+        else:
+            rp.feed_chunks(E.cut(rng, hs, case.get("policy", "whole")))
+            rp.feed_chunks(E.cut(rng, body, case.get("policy", "whole")))
+        rp.mark()
+        attached = rp.book.opens == 1
+    if not attached:
+        run.violation(key + "/not-attached", "valid handshake announcing 2**%d did not attach" % exp, {"escaped": _escapes(env, [rp.ep])}, case)
+        return
     sess = rp.book.last
-    err = None
-    try:
-        sess.transport.send(E.build_message(spec))
-    except Exception as e:
-        err = e
-    env.world.settle()
+    if site == "after":
+        plan = [spec]
+        errs = []
+        try:
+            sess.transport.send(E.build_message(spec))
+            errs.append(None)
+        except Exception as e:
+            errs.append(e)
+        env.world.settle()
+    else:
+        plan = [spec0, spec, spec2]
+        errs = [e for s_, i, e in sess.site_results if s_ == site]
+        if site == "message" and (len(sess.msgs) != 1 or not E.same_message(trigger, sess.msgs[0])[0]):
+            run.violation(key + "/trigger-not-delivered", "the frame following the handshake was delivered %d times" % len(sess.msgs),
+                          {"escaped": _escapes(env, [rp.ep]), "closed": [rp.ep.close_requested, rp.ep.lost]}, case)
+            return
+        if len(errs) != len(plan):
+            run.violation(key + "/callback-cut-short", "only %d of the %d guarded sends inside the callback ran" % (len(errs), len(plan)),
+                          {"escaped": _escapes(env, [rp.ep]), "closed": [rp.ep.close_requested, rp.ep.lost]}, case)
+            return
+    err = errs[plan.index(spec)]
     frames, rest = E.rs_parse_stream(bytes(rp.ep.all_out)[4:])
-    R.count("limit_send_cases")
-    R.seen("limit_send_exps", "%s/%d" % (fw, exp))
-    detail = {"announced": L, "serialized": target, "error": repr(err)[:200], "frames": [(t, len(p)) for t, p in frames], "rest": len(rest)}
+    R.count("limit_send_cases" + sfx)
+    R.seen("limit_send_exps" + sfx, "%s/%d" % (fw, exp))
+    detail = {"announced": L, "serialized": target, "error": repr(err)[:200], "frames": [(t, len(p)) for t, p in frames], "rest": len(rest),
+              "site": site, "errors": [repr(e)[:80] if e is not None else None for e in errs]}
     over = [n for t, p in frames for n in [len(p)] if n > L] or (len(rest) > 4 and ((rest[1] << 16) | (rest[2] << 8) | rest[3]) > L)
     if over:
         run.violation(key + "/sent-over-announced", "a frame longer than the peer's announced maximum 2**%d was written" % exp, detail, case)
+    # what must be on the wire so far, in order (the small messages around the sized one included)
+    want = []
+    for sp, e in zip(plan, errs):
+        if sp is spec:
+            if target <= L and not grey and e is None:
+                want.append(sp)
+        elif e is None:
+            want.append(sp)
     if target > L:
-        R.count("limit_send_over")
+        R.count("limit_send_over" + sfx)
         if err is None:
             run.violation(key + "/no-error-over-limit", "send() of %d octets (peer maximum %d) returned normally" % (target, L), detail, case)
         else:
             R.seen("limit_send_errors", type(err).__name__)
-        if frames or rest:
-            if not over:
-                run.violation(key + "/partial-write-over-limit", "send() over the limit left octets on the wire", detail, case)
-    elif target == L and exp == MAXEXP:
-        R.count("limit_send_grey_2pow24")      # 2**24 cannot be expressed in the 24-bit length field: not asserted
+        if (len(frames) != len(want) or rest) and not over:
+            run.violation(key + "/partial-write-over-limit", "send() over the limit left octets on the wire", detail, case)
+    elif grey:
+        R.count("limit_send_grey_2pow24")
     else:
-        R.count("limit_send_within")
+        R.count("limit_send_within" + sfx)
         if err is not None:
             run.violation(key + "/error-within-limit", "send() of %d octets (peer maximum %d) raised %s" % (target, L, type(err).__name__), detail, case)
-        else:
-            okw = len(frames) == 1 and not rest and frames[0][0] == 0 and len(frames[0][1]) == target
-            if okw:
-                try:
-                    okw = E.decode_payload(ser, frames[0][1]) == [E.plain_message(spec)]
-                except Exception:
-                    okw = False
-            if not okw:
-                run.violation(key + "/wire-format", "message of %d octets (peer maximum %d) is not on the wire as one intact frame" % (target, L), detail, case)
+    closed_now = bool(rp.ep.close_requested or rp.ep.lost)
+    if closed_now and target > L:
+        R.count("limit_send_over_then_closed")      # the statement does not say the transport survives a refused send: not asserted
+    for sp, e in zip(plan, errs):
+        if sp is not spec and e is not None and not ((grey or (closed_now and target > L)) and sp is spec2):
+            run.violation(key + "/small-send-raised", "send() of a small message inside the callback raised %s" % type(e).__name__, detail, case)
+    if not grey and not over and not (target > L and err is None):
+        okw = len(frames) == len(want) and not rest and all(t == 0 for t, _ in frames)
+        if okw:
+            try:
+                okw = [E.decode_payload(ser, p) for _, p in frames] == [[E.plain_message(sp)] for sp in want]
+            except Exception:
+                okw = False
+        if not okw and not (target > L and (len(frames) != len(want) or rest)):
+            run.violation(key + "/wire-format", "the messages sent without an error (%d, sized one %d octets, peer maximum %d) are not on the wire as "
+                          "intact frames in order" % (len(want), target, L), detail, case)
     # the stream stays well-formed: a small follow-up message is a whole frame
-    if not (rp.ep.close_requested or rp.ep.lost) and not (target == L and exp == MAXEXP):
+    if site == "after" and not (rp.ep.close_requested or rp.ep.lost) and not grey:
         n0 = len(frames)
-        spec2 = {"k": "event", "id": 9, "tag": "after", "fill": ""}
         try:
             sess.transport.send(E.build_message(spec2))
         except Exception as e:
@@ -1042,10 +1104,21 @@ def run_rs_limit_send(run, case):
                 good = False
         if not good:
             run.violation(key + "/stream-corrupted", "octet stream is not well-formed after the limit case", detail, case)
-    rp.ep.peer_close(clean=True)
+    if site != "after" and closed_now and target <= L and not grey:
+        run.violation(key + "/closed-unexpectedly", "transport closed although every message sent inside the callback was within the peer's maximum",
+                      dict(detail, closed=[rp.ep.close_requested, rp.ep.lost], escaped=_escapes(env, [rp.ep])), case)
+    if not (rp.ep.close_requested or rp.ep.lost):
+        rp.ep.peer_close(clean=True)
+    else:
+        finish_one_sided(env, rp.ep, "rs", role, True)
     env.world.settle()
     check_onclose_once(run, key, case, ((None, rp.book),))
-    R.seen("nontrivial", "limit-send/%s/%s/%s/%d/%+d" % (fw, role, ser, exp, delta))
+    esc = _exc_names(env, [rp.ep])
+    if esc and site != "after":
+        R.count("escaped_after_attach")
+        R.count("escape:rs/%s/%s/%s" % (role, SEND_SITES[site], esc[0]))
+    R.seen("nontrivial", "limit-send/%s/%s/%s/%d/%+d/%s/%s/%s" % (fw, role, ser, exp, delta, site, case.get("policy", "-"), case.get("glue", "-")))
+    R.seen("limit_send_sites", "%s/%s/%s" % (fw, role, site))
 
 
 def run_rs_limit_recv(run, case):
@@ -1169,6 +1242,86 @@ def run_rs_limit_pair(run, case):
     drain_pair(env, link, rng, policy)
     check_onclose_once(run, key, case, (("server", sb), ("client", cb)))
     R.seen("nontrivial", "limit-pair/%s/%s/%s/%s" % (fw, ser, case.get("smax"), case.get("cmax")))
+
+
+def run_rs_limit_pair_open(run, case):
+    """Two library endpoints with their own maxima; each SESSION sends, from inside its onOpen(), a small message, messages of
+    announced(peer)-1 / = / +1 octets and a small one again (each send guarded).  Judged against the maximum each end really
+    announced (read from its handshake octets)."""
+    R = run.R
+    R.count("evaluations")
+    env = run.fresh()
+    fw, ser = run.fw, case["ser"]
+    rng = random.Random(case["seed"])
+    policy = case["policy"]
+    key = "C13/rs/%s/pair/limit-open" % fw
+    measure = _lib_measure(ser)
+    plans = {}
+    for side, peer_max in (("client", case.get("smax")), ("server", case.get("cmax"))):
+        plan = [{"k": "call", "id": 8, "tag": side + "-before", "fill": ""}]
+        if peer_max:
+            guess = 2 ** max(9, (peer_max - 1).bit_length())
+            for delta in case["deltas"]:
+                if guess + delta < 2 ** 24:
+                    sp = E.sized_spec(measure, "publish", 1000 + delta, "%s%+d" % (side, delta), guess + delta)
+                    if sp is not None:
+                        plan.append(sp)
+        plan.append({"k": "event", "id": 9, "tag": side + "-after", "fill": ""})
+        plans[side] = plan
+    sscript = E.SessionScript(try_on_open=[E.build_message(x) for x in plans["server"]])
+    cscript = E.SessionScript(try_on_open=[E.build_message(x) for x in plans["client"]])
+    sb, cb, s, c, link = open_pair(run, env, "rs", [ser], [ser], sscript=sscript, cscript=cscript, smax=case.get("smax"), cmax=case.get("cmax"),
+                                   rng=rng, policy=policy)
+    if sb.opens != 1 or cb.opens != 1:
+        run.violation(key + "/not-attached", "pair did not attach", {"escaped": _escapes(env, [s, c])}, case)
+        return
+    ann = {"server": 2 ** (9 + (bytes(s.all_out)[1] >> 4)), "client": 2 ** (9 + (bytes(c.all_out)[1] >> 4))}
+    any_over = wrote_over = False
+    for side, book, peer_book, ep, peer in (("client", cb, sb, c, "server"), ("server", sb, cb, s, "client")):
+        L = ann[peer]
+        k2 = "C13/rs/%s/%s/%s" % (fw, side, SEND_SITES["open"])
+        plan = plans[side]
+        errs = [e for s_, i, e in book.last.site_results if s_ == "open"]
+        if len(errs) != len(plan):
+            run.violation(k2 + "/callback-cut-short", "only %d of the %d guarded sends inside onOpen ran" % (len(errs), len(plan)),
+                          {"escaped": _escapes(env, [s, c])}, case)
+            continue
+        sent_ok = []
+        for sp, err in zip(plan, errs):
+            n = measure(sp)
+            detail = {"sender": side, "peer_announced": L, "serialized": n, "error": repr(err)[:200], "site": "open"}
+            if n > L:
+                any_over = True
+                R.count("limit_send_over_onopen")
+                R.count("limit_pair_open_over")
+                if err is None:
+                    run.violation(k2 + "/no-error-over-limit", "send() of %d octets (peer maximum %d) inside onOpen returned normally" % (n, L), detail, case)
+                else:
+                    R.seen("limit_send_errors", type(err).__name__)
+            else:
+                R.count("limit_send_within_onopen")
+                if n == L:
+                    R.count("limit_pair_open_at_limit")
+                if err is not None:
+                    run.violation(k2 + "/error-within-limit", "send() of %d octets (peer maximum %d) inside onOpen raised %s" % (n, L, type(err).__name__), detail, case)
+                else:
+                    sent_ok.append(sp)
+        frames, rest = E.rs_parse_stream(bytes(ep.all_out)[4:])
+        if any(len(p) > L for _, p in frames) or (len(rest) >= 4 and ((rest[1] << 16) | (rest[2] << 8) | rest[3]) > L):
+            run.violation(k2 + "/sent-over-announced", "a frame longer than the peer's announced maximum %d was written from inside onOpen" % L,
+                          {"frames": [len(p) for _, p in frames], "site": "open"}, case)
+            wrote_over = True
+        elif not (s.lost or c.lost or s.close_requested or c.close_requested):
+            check_delivery(run, key, case, sent_ok, peer_book.last, side + "-to-" + peer)
+        R.seen("limit_send_exps_onopen", "%s/%d" % (fw, L.bit_length() - 1))
+        R.seen("limit_send_sites", "%s/%s/pair-open" % (fw, side))
+    if (s.close_requested or c.close_requested or s.lost or c.lost) and not wrote_over:
+        run.violation(key + "/closed-unexpectedly", "transport closed although nothing over a limit reached the wire",
+                      {"escaped": _escapes(env, [s, c]), "announced": ann}, case)
+    cb.last.transport.close() if cb.last.transport.isOpen() else None
+    drain_pair(env, link, rng, policy)
+    check_onclose_once(run, key, case, (("server", sb), ("client", cb)))
+    R.seen("nontrivial", "limit-pair-open/%s/%s/%s/%s/%s" % (fw, ser, case.get("smax"), case.get("cmax"), policy))
 
 
 # =================================================================================================
@@ -1650,6 +1803,7 @@ DISPATCH = {
     "rs-limit-send": run_rs_limit_send,
     "rs-limit-recv": run_rs_limit_recv,
     "rs-limit-pair": run_rs_limit_pair,
+    "rs-limit-pair-open": run_rs_limit_pair_open,
     "corrupt": run_corrupt,
     "pair-boom": run_pair_boom,
     "mixed": run_mixed,
